@@ -185,6 +185,162 @@ theorem gen_length (s : Stmt) : ∀ (cur : Nat) (lab : Option Label) (ctx : List
   | blk s ih => intro cur lab ctx pc; simp [gen, glen, ih, BI.shape]; omega
   | ifIter m s ih => intro cur lab ctx pc; simp [gen, glen, ih]; omega
 
+/-! ### no unresolved placeholder when every branch has a target -/
+
+theorem findBrk_no_nop (l : Option Label) (b : Bool) : ∀ (ctx : List BI) (ex : List Instr) (t : Nat),
+    findBrk l b ctx = some (ex, t) → Instr.nop ∉ ex := by
+  intro ctx
+  induction ctx with
+  | nil => intro ex t h; simp [findBrk] at h
+  | cons c rest ih =>
+    intro ex t h
+    cases c with
+    | loop lab bp cp =>
+      simp only [findBrk] at h
+      by_cases hm : labMatch l lab = true
+      · simp [hm] at h; obtain ⟨h1, _⟩ := h; subst h1; simp
+      · simp [hm] at h; exact ih ex t h
+    | label y bp =>
+      simp only [findBrk] at h
+      by_cases hy : l = some y
+      · cases b <;> simp [hy] at h; obtain ⟨h1, _⟩ := h; subst h1; simp
+      · simp [hy] at h; exact ih ex t h
+    | try_ =>
+      simp only [findBrk] at h
+      cases hr : findBrk l b rest with
+      | none => simp [hr] at h
+      | some p => obtain ⟨e', t'⟩ := p; simp [hr] at h; rw [← h.1]; simp [ih e' t' hr]
+    | scope n =>
+      simp only [findBrk] at h
+      cases hr : findBrk l b rest with
+      | none => simp [hr] at h
+      | some p => obtain ⟨e', t'⟩ := p; simp [hr] at h; rw [← h.1]; simp [ih e' t' hr]
+    | with_ =>
+      simp only [findBrk] at h
+      cases hr : findBrk l b rest with
+      | none => simp [hr] at h
+      | some p => obtain ⟨e', t'⟩ := p; simp [hr] at h; rw [← h.1]; simp [ih e' t' hr]
+    | iscope =>
+      simp only [findBrk] at h
+      cases hr : findBrk l b rest with
+      | none => simp [hr] at h
+      | some p =>
+        obtain ⟨e', t'⟩ := p
+        simp only [hr] at h
+        by_cases hc : (!b && hitsHead l rest) = true
+        · simp [hc] at h; rw [← h.1]; exact ih e' t' hr
+        · simp [hc] at h; rw [← h.1]; simp [ih e' t' hr]
+    | switch_ bp =>
+      simp only [findBrk] at h
+      by_cases hc : (b && l.isNone) = true
+      · simp [hc] at h; obtain ⟨h1, _⟩ := h; subst h1; simp
+      · simp [hc] at h; exact ih ex t h
+
+theorem retExitsS_no_nop : ∀ ctx : List BI, Instr.nop ∉ retExitsS ctx := by
+  intro ctx
+  induction ctx with
+  | nil => simp [retExitsS]
+  | cons c rest ih => cases c <;> simp [retExitsS, ih]
+
+theorem gen_no_nop (s : Stmt) : ∀ (cur : Nat) (lab : Option Label) (ctx : List BI) (pc : Nat),
+    targetsOK s lab (ctx.map BI.shape) = true → Instr.nop ∉ gen s cur lab ctx pc := by
+  induction s with
+  | skip => intros; simp [gen]
+  | log k => intros; simp [gen]
+  | seq a b iha ihb =>
+    intro cur lab ctx pc h
+    simp only [targetsOK, Bool.and_eq_true] at h
+    simp only [gen, List.mem_append, not_or]
+    exact ⟨iha _ _ _ _ h.1, ihb _ _ _ _ h.2⟩
+  | brk l =>
+    intro cur lab ctx pc h
+    simp only [targetsOK, findBrk_exitLen] at h
+    simp only [gen]
+    cases hf : findBrk l true ctx with
+    | none => simp [hf] at h
+    | some p => obtain ⟨ex, t⟩ := p; simp [findBrk_no_nop l true ctx ex t hf]
+  | cont l =>
+    intro cur lab ctx pc h
+    simp only [targetsOK, findBrk_exitLen] at h
+    simp only [gen]
+    cases hf : findBrk l false ctx with
+    | none => simp [hf] at h
+    | some p => obtain ⟨ex, t⟩ := p; simp [findBrk_no_nop l false ctx ex t hf]
+  | ret v => intros; simp [gen, retExitsS_no_nop]
+  | thr v => intros; simp [gen]
+  | fatal => intros; simp [gen]
+  | tryS i b hasC c hasF f ihb ihc ihf =>
+    intro cur lab ctx pc h
+    simp only [targetsOK, Bool.and_eq_true, Bool.or_eq_true, Bool.not_eq_true'] at h
+    obtain ⟨⟨hb, hc⟩, hf⟩ := h
+    have B := ihb cur none (BI.try_ :: ctx) (pc + (1 + if hasF = true then 1 else 0)) (by simpa [BI.shape] using hb)
+    cases hasC <;> cases hasF <;> simp only [gen, if_true, Bool.false_eq_true, if_false] at B ⊢
+    · simp [B]
+    · have F := ihf cur none (BI.try_ :: ctx) (pc + (1 + 1) + glen b none (BS.try_ :: ctx.map BI.shape) + 0 + 2)
+        (by simpa [BI.shape] using hf)
+      simp [B, F]
+    · have Cc := ihc cur none (BI.scope 1 :: BI.try_ :: ctx) (pc + (1 + 0) + glen b none (BS.try_ :: ctx.map BI.shape) + 3)
+        (by simpa [BI.shape] using hc)
+      simp [B, Cc]
+    · have Cc := ihc cur none (BI.scope 1 :: BI.try_ :: ctx) (pc + (1 + 1) + glen b none (BS.try_ :: ctx.map BI.shape) + 3)
+        (by simpa [BI.shape] using hc)
+      have F := ihf cur none (BI.try_ :: ctx)
+        (pc + (1 + 1) + glen b none (BS.try_ :: ctx.map BI.shape) + (3 + glen c none (BS.scope :: BS.try_ :: ctx.map BI.shape) + 1) + 2)
+        (by simpa [BI.shape] using hf)
+      simp [B, Cc, F]
+  | loop k id n body ih =>
+    intro cur lab ctx pc h
+    cases k with
+    | forin => simp [gen]
+    | forlet =>
+      simp only [targetsOK] at h
+      have B := ih id none (BI.iscope :: BI.loop lab
+        (pc + 3 + 2 + glen body none (BS.iscope :: BS.loop lab :: ctx.map BI.shape) + 3 + 1)
+        (pc + 3 + 2 + glen body none (BS.iscope :: BS.loop lab :: ctx.map BI.shape)) :: ctx) (pc + 3 + 2)
+        (by simpa [BI.shape] using h)
+      simp [gen, B]
+    | while_ =>
+      simp only [targetsOK] at h
+      have B := fun e c p => ih id none (BI.loop lab e c :: ctx) p (by simpa [BI.shape] using h)
+      simp [gen, B]
+    | do_ =>
+      simp only [targetsOK] at h
+      have B := fun e c p => ih id none (BI.loop lab e c :: ctx) p (by simpa [BI.shape] using h)
+      simp [gen, B]
+    | for_ =>
+      simp only [targetsOK] at h
+      have B := fun e c p => ih id none (BI.loop lab e c :: ctx) p (by simpa [BI.shape] using h)
+      simp [gen, B]
+  | forOf sp body ih => intros; simp [gen]
+  | lbl l s ih =>
+    intro cur lab ctx pc h
+    simp only [targetsOK] at h
+    simp only [gen]
+    by_cases hl : isLoop s = true
+    · simp only [hl, if_true] at h ⊢; exact ih _ _ _ _ h
+    · simp only [hl, if_false] at h ⊢
+      exact ih _ _ _ _ (by simpa [BI.shape] using h)
+  | sw u k a b iha ihb =>
+    intro cur lab ctx pc h
+    simp only [targetsOK, Bool.and_eq_true] at h
+    have A := fun e p => iha cur none (BI.switch_ e :: ctx) p (by simpa [BI.shape] using h.1)
+    have B := fun e p => ihb cur none (BI.switch_ e :: ctx) p (by simpa [BI.shape] using h.2)
+    simp [gen, A, B]
+  | withS s ih =>
+    intro cur lab ctx pc h
+    simp only [targetsOK] at h
+    have A := fun p => ih cur none (BI.with_ :: ctx) p (by simpa [BI.shape] using h)
+    simp [gen, A]
+  | blk s ih =>
+    intro cur lab ctx pc h
+    simp only [targetsOK] at h
+    have A := fun p => ih cur none (BI.scope 1 :: ctx) p (by simpa [BI.shape] using h)
+    simp [gen, A]
+  | ifIter m s ih =>
+    intro cur lab ctx pc h
+    simp only [targetsOK] at h
+    simp [gen, ih _ _ _ _ h]
+
 /-! ### posts -/
 
 /-- what every execution segment preserves; `I` = counter ids that may change, `rf` = whether the
@@ -256,7 +412,7 @@ def SimG (C : Code) (ctx : List BI) (src base : VM) (e : Nat) (I : List Nat) (rf
   | .ret v => ∃ τ, Reach C src τ ∧ Common base τ l I false ∧ (∃ xs, τ.stack = v :: (xs ++ base.stack)) ∧
         CodeAt C τ.pc (retExitsS ctx ++ [Instr.ret])
   | .thr v => ∃ τ, Common base τ l I rf ∧ (∃ xs, τ.stack = xs ++ base.stack) ∧ Reach C src (VM.throwV (some v) τ)
-  | .fatal => ∃ τ, Reach C src τ ∧ τ.log = base.log ++ l ∧ τ.halted = some Compl.fatal
+  | .fatal => ∃ τ, Reach C src τ ∧ τ.log = base.log ++ l ∧ (τ.halted = some Compl.fatal ∧ τ.tries = [] ∧ τ.iters = [])
 
 def SimK (C : Code) (ctx : List BI) (σ : VM) (e : Nat) (I : List Nat) (rf : Bool) (l : List Ev) (k : K) : Prop :=
   SimG C ctx σ σ e I rf l k
